@@ -4,6 +4,8 @@ import (
 	"context"
 	"encoding/json"
 	"fmt"
+	"io"
+	stdlog "log"
 	"net"
 	"net/http"
 	"net/http/httptest"
@@ -15,6 +17,7 @@ import (
 
 	"github.com/DataDog/datadog-traceroute/cache"
 	"github.com/DataDog/datadog-traceroute/cmd"
+	ddlog "github.com/DataDog/datadog-traceroute/log"
 	"github.com/DataDog/datadog-traceroute/publicip"
 	"github.com/DataDog/datadog-traceroute/result"
 	"github.com/DataDog/datadog-traceroute/reversedns"
@@ -23,6 +26,7 @@ import (
 
 	"verif/refcodec"
 	"verif/shim/vctx"
+	"verif/shim/vnet"
 	"verif/shim/vrand"
 	"verif/shim/vtime"
 	"verif/simnet"
@@ -50,7 +54,17 @@ type RTScn struct {
 	CLI         bool   `json:"cli,omitempty"` // go through the command-line front end (cmd.rootCmd, in-process); fixed: first TTL 1, send delay 50 ms, no public IP
 	// TrueSpelling: how an enabled boolean is written in the HTTP query ("" = "true"); any spelling strconv.ParseBool reads as true
 	TrueSpelling string `json:"true_spelling,omitempty"`
-	RawQuery     string `json:"raw_query,omitempty"`
+	// IntSpelling: how non-negative integers are written in the HTTP query: "" = plain decimal, "leading-zero" = 0<decimal>
+	// (still the same decimal number), "plus" = +<decimal>
+	IntSpelling string `json:"int_spelling,omitempty"`
+	// TraceLog: the process logs at trace level (lazily built trace messages are evaluated)
+	TraceLog bool `json:"trace_log,omitempty"`
+	// FiltersOff: capture filters are accepted and do nothing (as on platforms where they are a no-op)
+	FiltersOff bool `json:"filters_off,omitempty"`
+	// LingerMs: the caller goes on using the result it was given - it serialises it when the call returns and again this
+	// long afterwards (virtual time: whatever the request left running gets to run); the two must agree
+	LingerMs int    `json:"linger_ms,omitempty"`
+	RawQuery string `json:"raw_query,omitempty"`
 
 	// the world
 	Dest            int               `json:"dest"` // TTL from which the target answers (0 = never)
@@ -103,19 +117,21 @@ func (hangTransport) RoundTrip(req *http.Request) (*http.Response, error) {
 }
 
 type RTResult struct {
-	X           *vsched.Exec
-	Net         *simnet.Net
-	Script      *Script
-	Res         *result.Results
-	Err         error
-	Status      int
-	Body        []byte
-	Accepted    int // TCP connections accepted by the harness listener (the target)
-	Fetcher     *stubFetcher
-	RDNSCalls   map[string]int
-	ElapsedNs   int64
-	ThreadsLeft int
-	ListenPort  uint16
+	// ChangedAfterReturn: the result document changed after the call had returned (RTScn.LingerMs)
+	ChangedAfterReturn string
+	X                  *vsched.Exec
+	Net                *simnet.Net
+	Script             *Script
+	Res                *result.Results
+	Err                error
+	Status             int
+	Body               []byte
+	Accepted           int // TCP connections accepted by the harness listener (the target)
+	Fetcher            *stubFetcher
+	RDNSCalls          map[string]int
+	ElapsedNs          int64
+	ThreadsLeft        int
+	ListenPort         uint16
 }
 
 // variantOf maps request parameters to the harness variant name ("" = none / invalid).
@@ -241,8 +257,17 @@ func runRT(cfg vsched.Config, sc *RTScn, twice bool) *RTResult {
 		}
 	}
 	simnet.Install()
+	vnet.Blackhole, vnet.Dials = nil, 0
+	if sc.TraceLog {
+		// the embedding process logs at trace level (the CLI's -v, the server's log-level setting): lazily built trace
+		// messages are evaluated. The text goes to the standard logger, which is silenced for good in this worker.
+		stdlog.SetOutput(io.Discard)
+		ddlog.SetLogLevel(ddlog.LevelTrace)
+		defer ddlog.SetLogLevel(ddlog.LevelError)
+	}
 	n := simnet.New(script)
 	n.Faults = sc.Faults
+	n.FiltersOff = sc.FiltersOff
 	PrepareBases(sc.IPIDBase, sc.EchoBase)
 	vrand.Src = &randSrc{}
 	out.Net, out.Script = n, script
@@ -274,8 +299,29 @@ func runRT(cfg vsched.Config, sc *RTScn, twice bool) *RTResult {
 			spec.DelayNs = 30_000_000
 		case "no-handshake":
 			spec.Enabled = false
+		case "greeting-before-synack":
+			// a capture handle whose SYN-ACK filter does not filter (a no-op on some platforms) sees a data segment of the
+			// connection before the SYN-ACK: not the SYN-ACK, and no verdict on the target's options
+			spec.Greeting = true
+		case "greeting-without-synack":
+			spec.Greeting, spec.Enabled = true, false
 		case "closed":
 			nolisten = true
+		case "syn-dropped":
+			// nothing answers the connect's SYN (a firewall that drops): the connect gives up when its own timeout passes
+			nolisten = true
+			for _, s := range scns {
+				if s.Variant != "sack" {
+					if s.Hops == nil {
+						s.Hops = map[int]HopSpec{}
+					}
+					for t := 1; t <= 255; t++ {
+						if sc.Dest > 0 && t >= sc.Dest {
+							s.Hops[t] = HopSpec{Silent: true}
+						}
+					}
+				}
+			}
 		case "empty-sack-option", "half-sack-block":
 			form := map[string]string{"empty-sack-option": "sack0", "half-sack-block": "sackHalf"}[sc.Capability]
 			for _, s := range scns {
@@ -334,6 +380,9 @@ func runRT(cfg vsched.Config, sc *RTScn, twice bool) *RTResult {
 			l.Expect = sc.Queries
 		}
 		out.ListenPort = p
+		if sc.Capability == "syn-dropped" {
+			BlackholePort(p)
+		}
 		if sc.UseListenerPort || sc.Port == 0 {
 			port = int(p)
 		}
@@ -431,13 +480,22 @@ func runRT(cfg vsched.Config, sc *RTScn, twice bool) *RTResult {
 					}
 					return fmt.Sprint(v)
 				}
+				iv := func(n int) string {
+					switch {
+					case n >= 0 && sc.IntSpelling == "leading-zero":
+						return "0" + fmt.Sprint(n)
+					case n >= 0 && sc.IntSpelling == "plus":
+						return "+" + fmt.Sprint(n)
+					}
+					return fmt.Sprint(n)
+				}
 				vals.Set("target", sc.Hostname)
 				vals.Set("protocol", sc.Protocol)
-				vals.Set("port", fmt.Sprint(port))
-				vals.Set("traceroute-queries", fmt.Sprint(sc.Queries))
-				vals.Set("e2e-queries", fmt.Sprint(sc.E2e))
-				vals.Set("max-ttl", fmt.Sprint(sc.MaxTTL))
-				vals.Set("timeout", fmt.Sprint(sc.TimeoutMs))
+				vals.Set("port", iv(port))
+				vals.Set("traceroute-queries", iv(sc.Queries))
+				vals.Set("e2e-queries", iv(sc.E2e))
+				vals.Set("max-ttl", iv(sc.MaxTTL))
+				vals.Set("timeout", iv(sc.TimeoutMs))
 				if sc.Method != "" {
 					vals.Set("tcp-method", sc.Method)
 				}
@@ -489,6 +547,14 @@ func runRT(cfg vsched.Config, sc *RTScn, twice bool) *RTResult {
 		}
 		out.ElapsedNs = vsched.Now()
 		out.ThreadsLeft = vsched.LiveThreads()
+		if sc.LingerMs > 0 && out.Res != nil {
+			b1 := CallerSerialises(out.Res)
+			vtime.Sleep(time.Duration(sc.LingerMs) * time.Millisecond)
+			b2 := CallerSerialises(out.Res)
+			if string(b1) != string(b2) {
+				out.ChangedAfterReturn = fmt.Sprintf("as returned: %s ; %d ms later: %s", b1, sc.LingerMs, b2)
+			}
+		}
 	})
 	for _, l := range n.Listeners {
 		l.Expect = 1 << 20
@@ -499,6 +565,15 @@ func runRT(cfg vsched.Config, sc *RTScn, twice bool) *RTResult {
 	}
 	vrand.Src = nil
 	return out
+}
+
+// CallerSerialises plays the caller of RunTraceroute using the result it was returned. An access under this frame is the
+// caller's, not the harness's: the race pass (C14) counts it as one side of a report.
+//
+//go:noinline
+func CallerSerialises(res *result.Results) []byte {
+	b, _ := json.Marshal(res)
+	return b
 }
 
 // ProbesBySink groups the emitted probes by run.
